@@ -73,6 +73,7 @@ def dict_event_factory(trait_dict, removed, added, changed):
     # instead.
     removed = removed.copy()
     removed.update(changed)
+    added = added.copy()
     for key in changed:
         added[key] = trait_dict[key]
     return DictChangeEvent(
